@@ -770,14 +770,13 @@ def evaluate__parse_json_functions(self: XPathFunction, context: ta.ContextType 
 
         return XPathMap(self.parser, items)
 
-    kwargs: dict[str, Any] = {'object_pairs_hook': json_object_pairs_to_map}
-    if liberal or escape:
-        kwargs['strict'] = False
-    if liberal:
-        def parse_constant(s: str) -> None:
-            raise self.error('FOJS0001')
+    def parse_constant(s: str) -> None:
+        raise self.error('FOJS0001')
 
-        kwargs['parse_constant'] = parse_constant
+    kwargs: dict[str, Any] = {'object_pairs_hook': json_object_pairs_to_map,
+                              'parse_constant': parse_constant}
+    if liberal:
+        kwargs['strict'] = False
 
     try:
         result = json.JSONDecoder(**kwargs).decode(json_text)
@@ -1382,14 +1381,13 @@ def evaluate__json_to_xml(self: XPathFunction, context: ta.ContextType = None) \
             elem.append(item)
         return cast(ElementProtocol, elem)
 
-    kwargs: dict[str, Any] = {'object_pairs_hook': json_object_to_etree}
-    if liberal or escape:
-        kwargs['strict'] = False
-    if liberal:
-        def parse_constant(s: Any) -> None:
-            raise self.error('FOJS0001')
+    def parse_constant(s: Any) -> None:
+        raise self.error('FOJS0001')
 
-        kwargs['parse_constant'] = parse_constant
+    kwargs: dict[str, Any] = {'object_pairs_hook': json_object_to_etree,
+                              'parse_constant': parse_constant}
+    if liberal:
+        kwargs['strict'] = False
 
     etree.register_namespace('fn', XPATH_FUNCTIONS_NAMESPACE)
     try:
